@@ -81,6 +81,7 @@ func H_C13_seq() {
 	mode := vfParam("mode", 0)
 	withStats := vfParam("stats", 0)
 	first := vfParam("first", -1)
+	second := vfParam("second", -1) // optionally fixes the second shape too (job splitting)
 	conn := newZZConn()
 	conn.wch = make(chan *Rpc, 16)
 	var opts []DialOption
@@ -141,6 +142,8 @@ func H_C13_seq() {
 		}
 		if i == 0 && first >= 0 {
 			shapes[i] = first
+		} else if i == 1 && second >= 0 {
+			shapes[i] = second
 		} else {
 			shapes[i] = vfChoice("shape", zzNumRespShapes)
 		}
